@@ -161,6 +161,9 @@ func (c *Ctx) collectFuncs() {
 		if f.Synthetic != "" {
 			return
 		}
+		if c.isHarness(f) {
+			return // smat.go (build tag gofuzz): fuzzing harness, not library code
+		}
 		seen[f] = true
 		c.Funcs = append(c.Funcs, f)
 		for _, a := range f.AnonFuncs {
@@ -191,6 +194,15 @@ func (c *Ctx) collectFuncs() {
 	if len(c.Funcs) < 200 {
 		broken("only %d moss functions found (floor 200)", len(c.Funcs))
 	}
+}
+
+// isHarness: the function lives in smat.go, the gofuzz-tagged fuzzing harness.
+func (c *Ctx) isHarness(f *ssa.Function) bool {
+	r := root(f)
+	if !r.Pos().IsValid() {
+		return false
+	}
+	return filepath.Base(c.Fset.Position(r.Pos()).Filename) == "smat.go"
 }
 
 // fname is the stable name of a moss function: "(*Store).persist",
@@ -342,7 +354,7 @@ func (c *Ctx) Callers(f *ssa.Function) []callSite {
 			if e.Caller.Func.Pkg != c.Moss && (e.Caller.Func.Parent() == nil || root(e.Caller.Func).Pkg != c.Moss) {
 				continue
 			}
-			if e.Caller.Func.Synthetic != "" {
+			if e.Caller.Func.Synthetic != "" || c.isHarness(e.Caller.Func) {
 				continue
 			}
 			out = append(out, callSite{e.Caller.Func, e.Site})
